@@ -15,7 +15,7 @@ pub const META: PropMeta = PropMeta {
     level: "exploration",
     rule: "cases = (registry, id) for every id of: the hand-written gallery of recursive types (see C12); simulator programs with mutual recursion through containers and generics, repeated unnamed types, skipped parameters, bit sequences, unit / one-element tuples, empty structs and enums, Duration/NonZero/PhantomData entries; registries with U256/I256 primitives; all 918 Polkadot ids. Oracle: a registry-driven recursive-descent reader of the (whitespace-stripped) description: at every position the expected registry id is known; a named type is accepted either in full (`struct|enum Name<args>` + every field name / variant name / primitive / array length / tuple arity incl. the one-element-tuple comma / Box, Compact, Vec wrapper, in order) or by its name with generic arguments (`_` for skipped parameters); unnamed types are read structurally; the reader must consume the whole text. Every struct/enum reachable from the id through fields and element types must have been read in full at least once. The formatted description must equal the unformatted one after removing whitespace. Bounded progress (restating 'terminates'), from the transformer hook: the policy is entered at most once per named id and at most (E+1)*(Nn+1) resolve calls are made (E edges, Nn named types of the reachable subgraph). non-trivial = description of a named type whose reachable subgraph has >= 2 named types; distinct by (registry hash, id).",
     assumptions: &["the name form is `Ident<arg,...>` with arguments rendered by name (Vec<..>, [T;n], tuples, primitives, Compact<..>, BitSequence, `_` for skipped)"],
-    required_counters: &["descriptions_read", "named_types_expanded", "name_references_read", "cyclic_ids_described", "hook[tf:policy-enter]", "hook[tf:hit-in-progress]", "hook[tf:hit-computed]", "one_tuples_read", "boxes_read", "bit_sequences_read"],
+    required_counters: &["descriptions_read", "named_types_expanded", "name_references_read", "cyclic_ids_described", "hook[tf:policy-enter]", "hook[tf:hit-in-progress]", "hook[tf:hit-computed]", "one_tuples_read", "boxes_read", "bit_sequences_read", "type_names_dropped"],
     floor: (3000, 100_000),
     shards: (16, 16),
 };
@@ -346,6 +346,27 @@ pub fn run(ctx: &mut Ctx) {
                     }
                 }
             }
+        }
+        if case % 4 == 2 {
+            // recorded type names are optional (hand-written or stripped metadata): drop some
+            use rand::Rng;
+            let mut dropped = 0u64;
+            for t in r.types.iter_mut() {
+                let mut strip = |fs: &mut Vec<Field<PortableForm>>| {
+                    for f in fs.iter_mut() {
+                        if f.type_name.is_some() && rng.gen_bool(0.5) {
+                            f.type_name = None;
+                            dropped += 1;
+                        }
+                    }
+                };
+                match &mut t.ty.type_def {
+                    TypeDef::Composite(c) => strip(&mut c.fields),
+                    TypeDef::Variant(v) => v.variants.iter_mut().for_each(|v| strip(&mut v.fields)),
+                    _ => {}
+                }
+            }
+            ctx.count("type_names_dropped", dropped);
         }
         let regj = reg::to_json(&r);
         let fp = reg::fingerprint(&r);
